@@ -389,6 +389,7 @@ def c06(run):
     r_misc12.run_timeout_drawn(run, P)
     r_misc12.run_unlink_before_callout(run, P)
     r_misc12.run_min_update(run, P)
+    r_misc12.run_delta_inherited(run, P)
     r_misc12.run_one_nack_per_disconnect(run, P)
     from rules import r_cnt
     r_cnt.run_counted_queued(run, P)     # a counted Confirmable is queued for retransmission (or un-counted): it cannot vanish without an outcome
